@@ -647,7 +647,9 @@ func (ctx HelperContext) SimplifyUnusedExpr(expr Expr, unsupportedFeatures compa
 							continue
 						} else {
 							// Replace values without side effects with "0" because it's short
+							// (a getter or setter becomes a plain property: "get [x]: 0" is not valid)
 							property.ValueOrNil.Data = &ENumber{}
+							property.Kind = PropertyField
 						}
 					}
 					properties = append(properties, property)
